@@ -62,7 +62,12 @@ def sensitivity(prop, budget_s=240):
                 continue
             subprocess.check_call(['rsync', '-a', '--delete', '--exclude', 'target', '--exclude', '.git', extract.REPO + '/', scratch + '/'])
             ok = True
-            for e in mt.get('edits', [mt]):
+            if mt.get('patch'):
+                r = subprocess.run(['patch', '-p1', '-s', '-i', os.path.join(VERIF, mt['patch'])], cwd=scratch, capture_output=True)
+                if r.returncode != 0:
+                    out['skipped'] += 1
+                    continue
+            for e in mt.get('edits', [mt] if 'file' in mt else []):
                 path = os.path.join(scratch, e['file'])
                 try:
                     s = open(path).read()
